@@ -40,6 +40,9 @@ def configs(tier, seed):
             out.append(dict(name="views %s R=%d" % (st, R), h="views", st=st, R=R))
             out.append(dict(name="plates %s R=%d" % (st, R), h="plates", st=st, R=R))
             out.append(dict(name="split after set_observed / merge %s R=%d" % (st, R), h="split", st=st, R=R))
+    # stored values of every float class (NaN, +-inf, -0.0 next to finite ones), observed or not: views select by the mask alone
+    for st in ("A", "B"):
+        out.append(dict(name="plates %s R=4, observation values of every float class" % st, h="plates", st=st, R=4, special=True))
     out.append(dict(name="unique-kernel", h="uniq", n=3 if tier == "quick" else 4, cols=2 if tier == "quick" else 3))
     return out
 
@@ -51,6 +54,8 @@ def fixtures(cfg):
     out = []
     for bits in (0b1011, 0b0110, 0b1111, 0b0000, 0b101101):
         v = {"obs%d" % i: 0.1 * (i + 1) for i in range(6)}
+        if cfg.get("special"):
+            v.update({"obs0#cls": bits % 5, "obs1#cls": (bits + 1) % 5, "obs2#cls": 1, "obs3#cls": (bits + 2) % 5})
         for i in range(6):
             v["sel%d" % i] = bool(bits >> i & 1)
             v["sub%d" % i] = bool((bits * 5) >> i & 1)
@@ -61,10 +66,14 @@ def fixtures(cfg):
     return out
 
 
-def _screen(ctx, data, st, R):
+_SPECIAL = [False]
+
+
+def _screen(ctx, data, st, R, special=False):
     np = ctx.np
     rows = STRUCTS[st][:R]
-    obs = [ctx.real("obs%d" % i) for i in range(R)]
+    _SPECIAL[0] = bool(special)
+    obs = [(ctx.float_bits if special else ctx.real)("obs%d" % i) for i in range(R)]
     mask = [r[5] in OBSERVED_PLATES[st] for r in rows]
     s = data.Screen(
         treatment_names=np.array([[r[1], r[3]] for r in rows], dtype=str),
@@ -97,7 +106,7 @@ def _eq_rows(ctx, a, b):
         return r
     if isinstance(a, str) or isinstance(b, str):
         return a == b
-    return ctx.eq(a, b)
+    return ctx.same(a, b) if _SPECIAL[0] else ctx.eq(a, b)
 
 
 def _check_view(ctx, view, screen, idx, label):
@@ -194,7 +203,7 @@ def h_plates(ctx, cfg):
     np = ctx.np
     data = ctx.mod("batchie.data")
     R = cfg["R"]
-    screen, rows, obs, mask = _screen(ctx, data, cfg["st"], R)
+    screen, rows, obs, mask = _screen(ctx, data, cfg["st"], R, cfg.get("special"))
     ob, un = screen.subset_observed(), screen.subset_unobserved()
     oi = [i for i in range(R) if mask[i]]
     ui = [i for i in range(R) if not mask[i]]
